@@ -29,3 +29,20 @@ package sqlite
 //@           (len(schema.GvcInspected.Schemas) == 1 && schema.GvcInspected.Schemas[0].Name == mainFile &&
 //@            (len(schema.GvcInspected.Schemas[0].Tables) == 0 ||
 //@             (len(schema.GvcInspected.Schemas[0].Tables) == 1 && revT != nil && schema.GvcInspected.Schemas[0].Tables[0].Name == revT.Name)))
+
+// The restore function handed out by Snapshot: it issues the clean-up statements on the
+// connection unconditionally (migrate.GvcExec is the ghost log of successfully executed
+// statements) and consults nothing else; an error is reported iff a statement failed.
+//@ func (d *Driver) Snapshot__closure1(ctx context.Context) (err error)
+//@   requires d != nil && d.conn != nil && d.conn.ExecQuerier != nil && migrate.GvcExec.N >= 0
+//@   modifies migrate.GvcExec
+//@   ensures cleanup-runs-unconditionally: err == nil ==> migrate.GvcExec.N == old(migrate.GvcExec.N) + 4 &&
+//@           migrate.GvcAt(migrate.GvcExec, old(migrate.GvcExec.N)) == "PRAGMA writable_schema = 1;" &&
+//@           migrate.GvcAt(migrate.GvcExec, old(migrate.GvcExec.N)+1) == "DELETE FROM sqlite_master WHERE type IN ('table', 'view', 'index', 'trigger');" &&
+//@           migrate.GvcAt(migrate.GvcExec, old(migrate.GvcExec.N)+2) == "PRAGMA writable_schema = 0;" &&
+//@           migrate.GvcAt(migrate.GvcExec, old(migrate.GvcExec.N)+3) == "VACUUM;"
+//@   ensures cleanup-consults-no-inspection: schema.GvcInspected == old(schema.GvcInspected)
+//@   ensures failure-is-reported: err != nil ==> migrate.GvcExec.N < old(migrate.GvcExec.N) + 4
+//@   loop 1 invariant 0 <= loopk && loopk <= 4 && len(loopx) == 4 && migrate.GvcExec.N == old(migrate.GvcExec.N) + loopk
+//@   loop 1 invariant (forall j int :: 0 <= j && j < loopk ==> migrate.GvcAt(migrate.GvcExec, old(migrate.GvcExec.N)+j) == loopx[j])
+//@   loop 1 invariant loopx[0] == "PRAGMA writable_schema = 1;" && loopx[1] == "DELETE FROM sqlite_master WHERE type IN ('table', 'view', 'index', 'trigger');" && loopx[2] == "PRAGMA writable_schema = 0;" && loopx[3] == "VACUUM;"
